@@ -213,6 +213,9 @@ func (e Env) FirstOf(a, b interface{}) interface{} {
 func (e Env) CountAny(xs []interface{}) int { return len(xs) }
 func (e Env) CountAny2(i int, xs []interface{}) int { return i + 10*len(xs) }
 
+// EqStringer has a non-empty interface as its first parameter (an overload candidate that a nil operand fits).
+func (e Env) EqStringer(a fmt.Stringer, s string) bool { return a != nil && a.String() == s }
+
 // Tuple also has the fast-call shape and hands its argument slice back to the caller.
 func (e Env) Tuple(xs ...interface{}) interface{} { return xs }
 
